@@ -88,6 +88,9 @@ def translate_expression(expr, env: Env) -> TExp:  # noqa: C901
         # Get the inner type
         inner_type = env[sn.split(".")[0]].ttype
         for i in sn.split(".")[1:]:
+            if int(i) < 0:
+                raise exceptions.OutOfBoundException(0, i)
+
             if hasattr(inner_type, "BIT_SIZE"):
                 if int(i) < inner_type.BIT_SIZE:
                     inner_type = bool
